@@ -352,6 +352,8 @@ func c11Configs(tier string, race bool) []c11Cfg {
 	for _, bv := range []bool{false, true} {
 		r = append(r, c11Cfg{T: "float64", C: 2, L: 1, K: 2, G: 2, M: 2, ByValue: bv, Bound: -1, Shrink: true}, c11Cfg{T: "int16", C: 1, L: 3, K: 4, G: 2, M: 2, ByValue: bv, Bound: 2, Shrink: true})
 	}
+	// pools whose buffers are born full, put back as shorter windows from frame 0
+	r = append(r, c11Cfg{T: "int8", C: 2, L: 2, K: 2, G: 2, M: 2, Bound: 1, Shrink: true}, c11Cfg{T: "float64", C: 1, L: 3, K: 3, G: 2, M: 1, ByValue: true, Bound: 2, Shrink: true})
 	// buffers put back through another copy of the allocator value than the one they came from
 	r = append(r, c11Cfg{T: "int16", C: 2, L: 1, K: 2, G: 2, M: 2, ByValue: true, Bound: 1, Cross: true}, c11Cfg{T: "int8", C: 1, L: 0, K: 2, G: 3, M: 1, ByValue: true, Warm: true, Bound: 1, Cross: true})
 	// a pool whose allocator has no channels (and a capacity all the same)
